@@ -128,12 +128,13 @@ def run_shard(spec, emit):
             emit(dict(id=cid, cell=cid, status="inconclusive", obs=dict(tb=traceback.format_exc()[-1500:])))
 
 
-def build_case(coords, seed):
+def build_case(coords, seed, layout="contig"):
     solver = coords["solver"]
     spec = dict(check="C13", seed=seed, coords=["cell"], solver=solver, datafit=coords["datafit"],
                 penalty=coords["penalty"], storage=coords["storage"], fit_intercept=coords["fit_intercept"],
-                strategy=coords["strategy"], n=14, p=6, xkind="gauss", alpha_frac=0.3, positive=False,
-                knobs=dict(tol=1e-6), group_style="contig", n_tasks=2,
+                strategy=coords["strategy"], n=14, p=6, xkind="gauss" if layout == "contig" else "centered",
+                alpha_frac=0.3, positive=False,
+                knobs=dict(tol=1e-6), group_style=layout, n_tasks=2,
                 # "one small, well-conditioned problem per cell": an ordinary offset (a target dominated by its mean puts the
                 # square-root datafit with an intercept into its documented small-residual refusal) and labels that no
                 # hyperplane separates (otherwise compositions whose penalty does not bound the coefficients have no minimiser)
@@ -160,11 +161,19 @@ def classify_exception(e):
     return "violation", name, msg
 
 
-def run_cell(emit, cid, coords, seed):
+def run_cell(emit, cid, coords, seed, layout="contig"):
     solver = coords["solver"]
+    if layout == "contig" and (coords["datafit"] in ("QuadraticGroup", "LogisticGroup")
+                               or coords["penalty"] in ("WeightedGroupL2", "WeightedL1GroupL2")):
+        # group-structured components are judged on a second problem as well: as many groups as features, listed in
+        # reverse order, columns on different scales (a composition that takes groups for features shows there)
+        cid2 = cid + "|singletons"
+        emit(dict(id=cid2, status="started", cell=cid2, coords=coords))
+        run_cell(emit, cid2, coords, seed, layout="singletons_rev")
+        emit(dict(id=cid, status="started", cell=cid, coords=coords))
     base = dict(id=cid, cell="%s|%s" % (solver, coords["datafit"]), digest=digest(cid), nontrivial=True)
     try:
-        case = build_case(coords, seed)
+        case = build_case(coords, seed, layout)
     except Exception as e:
         emit(dict(base, status="inconclusive", nontrivial=False, obs=dict(build_error=repr(e)[:300])))
         return
